@@ -164,18 +164,22 @@ def run(ctx):
            required_actions=["Add", "Set", "Del", "Get", "GetList", "In", "Iter", "ItemsOp", "Pop", "Copy", "CAdd", "CSet",
                              "CDel", "CGet", "ParseLine", "RoundTrip"])
     # 2. spec -> code: every path up to L
-    La, Lb = ctx.pick((3, 4), (4, 5))
-    paths = ctx.gen_paths("httpm", "Gen_HeaderMap", "Gen_HeaderMap.cfg", timeout=ctx.pick(900, 3000), overrides={"L": La, "NameSel": 1, "Acts": ALL_ACTS})
+    # quick: all 16 actions to length 3 over the names {a, A, x-Y}; the 10 cache-affecting actions to length 4.
+    # thorough: the same, with the length-3 run over the larger name set NameSel = 4 (1.6e5 paths).  (Length 4
+    # over all actions / length 5 over the core is 1.6e6 paths and 1.5 GB of dump: it did not finish in 75 min.)
+    paths = ctx.gen_paths("httpm", "Gen_HeaderMap", "Gen_HeaderMap.cfg", timeout=ctx.pick(900, 3000),
+                          overrides={"L": 3, "NameSel": ctx.pick(1, 4), "Acts": ALL_ACTS})
     ctx.replay(paths, replayer, label="s2c")
-    paths = ctx.gen_paths("httpm", "Gen_HeaderMap", "Gen_HeaderMap.cfg", timeout=ctx.pick(900, 3000), overrides={"L": Lb, "NameSel": 3, "Acts": ctx.pick(CORE_ACTS, CORE5_ACTS)})
+    del paths
+    paths = ctx.gen_paths("httpm", "Gen_HeaderMap", "Gen_HeaderMap.cfg", timeout=ctx.pick(900, 3000), overrides={"L": 4, "NameSel": 3, "Acts": CORE_ACTS})
     ctx.replay(paths, replayer, label="s2c")
     ctx.cov["exhaustive"] = True
-    sims = ctx.sim_paths("httpm", "Gen_HeaderMap", "Gen_HeaderMap.cfg", timeout=ctx.pick(900, 3000), num=ctx.pick(300, 4000), depth=30,
+    sims = ctx.sim_paths("httpm", "Gen_HeaderMap", "Gen_HeaderMap.cfg", timeout=ctx.pick(900, 3000), num=ctx.pick(300, 2000), depth=30,
                          overrides={"L": 30, "NameSel": 4, "Acts": ALL_ACTS, "LineFormats": "{1, 2, 3}",
                                     "ContFormats": "{1, 2, 3}", "BadSel": 1})
     ctx.replay(sims, replayer, label="s2c-sim")
     # 3. code -> spec
-    n = ctx.pick(400, 8000)
+    n = ctx.pick(400, 4000)
     jobs = [(i + 1, ctx.seed * 1000003 + i, 40) for i in range(n)]
     traces = framework.pool_map(random_trace, jobs)
     ctx.validate("httpm", "Trace_HeaderMap", "Trace_HeaderMap.cfg", traces, timeout=ctx.pick(900, 3000), sig_fn=_c2s_sig)
